@@ -76,6 +76,12 @@ def jobs(tier, seed, flavours):
             # single-switch sweep over the first task's yield points for this scenario
             for at in range(0, 48, 1 if tier == 'thorough' else 3):
                 yield {'i': i, 'seed': seed, 'tpl': tpl, 'sweep': [(i // 6) % 2, at]}
+        if tier == 'thorough' and i % 6 < 5 and (i // 6) % 16 == 1:
+            # two-switch sweep: A runs a steps, B runs b steps, A runs to its end, then the rest
+            for a in range(0, 40, 2):
+                for b in range(1, 40, 3):
+                    yield {'i': i, 'seed': seed, 'tpl': tpl, 'script': [[0, a], [1, b], [0, 100000], [1, 100000]]}
+                    yield {'i': i, 'seed': seed, 'tpl': tpl, 'script': [[1, a], [0, b], [2, 100000], [1, 100000]]}
         if 'asan' in flavours and i % 20 == 0:
             yield {'i': i, 'seed': seed, 'tpl': tpl, 'flavour': 'asan'}
         i += 1
@@ -199,12 +205,12 @@ def run_job(job, io):
     if sim.cb_switches > 0:
         keys.add('sched|' + dig[:24])
     desc.update({'policy': list(sim.policy) if sim.policy else None, 'switches': sim.switches, 'cb_switches': sim.cb_switches,
-                 'steps': sim.steps, 'tasks': [t.name for t in sim.tasks], 'sweep': job.get('sweep')})
+                 'steps': sim.steps, 'tasks': [t.name for t in sim.tasks], 'sweep': job.get('sweep'), 'script': job.get('script')})
     out = {'digest': dig, 'violations': violations, 'keys': sorted(keys), 'steps': sim.steps, 'probes': dict(probes),
            'faults_cfg': {'gc': int(bool(sim.gc_rate))}, 'faults_fired': dict(sim.faults_fired),
-           'sample': dict(desc, trail=sim.trail[:40]) if job.get('i', 0) % 97 == 0 and not job.get('sweep') else None,
+           'sample': dict(desc, trail=sim.trail[:40]) if job.get('i', 0) % 97 == 0 and not job.get('sweep') and not job.get('script') else None,
            'extra': {'context_switches': sim.switches, 'switches_inside_callbacks': sim.cb_switches,
-                     'runs_' + tpl: 1, 'sweep_runs': int(bool(job.get('sweep')))}}
+                     'runs_' + tpl: 1, 'sweep_runs': int(bool(job.get('sweep'))), 'script_runs': int(bool(job.get('script')))}}
     if violations or job.get('_min') or job.get('_stream_tape'):
         out['tape'] = tape.values
         out['ops'] = dict(desc, trail=sim.trail[-60:])
@@ -212,7 +218,10 @@ def run_job(job, io):
 
 
 def set_policy(sim, tape, job):
-    if job.get('sweep'):
+    if job.get('script'):
+        sim.policy = ('script',)
+        sim.script = [list(x) for x in job['script']]
+    elif job.get('sweep'):
         sim.policy = ('switch',)
         sim.forced_switch = tuple(job['sweep'])
     else:
